@@ -35,10 +35,11 @@ def run(ctx, broken):
     for line, io, mo, fa in recs:
         c = mcommon.parse_case(line)
         o = mcommon.parse_out(io)
-        if o["k"] == "M" and c["cfg"][3] == "0":
+        # only well-formed calls: the needle must already be normalised for the configuration (nok = needle_ok)
+        if o["k"] == "M" and c["cfg"][3] == "0" and mcommon.parse_facts(fa).get("nok") == 1:
             by.setdefault((c["cfg"], c["hr"], tuple(c["h"]), tuple(o["idx"])), set()).add((o["score"], c["algo"]))
     for k, v in by.items():
-        if len({s for s, _ in v}) > 1 and len(res["failures"]) < 400:
+        if len({s for s, _ in v}) > 1 and len(res["failures"]) < 5000:
             res["failures"].append({"class": "same_alignment", "what": "alignment %s of haystack %r scored differently: %s" % (list(k[3])[:10], "".join(chr(x) for x in k[2])[:40], sorted(v)), "case": ""})
     return res
 
